@@ -65,6 +65,69 @@ def _str(v: Any) -> str:
     return _repr(v) if isinstance(v, (Obj, DT)) else str(v)
 
 
+class _MutSet(set):
+    """`set()` created empty by the interpreted code (mutable; set literals / comprehensions stay frozen)."""
+
+
+class Opaque:
+    """A value the analysis does not look into (free names, dtype objects, primitive handles, flags passed through)."""
+    def __init__(self, name: str):
+        self.name = name
+
+    def __repr__(self) -> str:
+        return f"<{self.name}>"
+
+
+class Closure:
+    """A lambda / nested def evaluated in its defining environment (captured by reference, like Python)."""
+    def __init__(self, ev: "Evaluator", node: ast.AST, env: Dict[str, Any], fi: "FuncInfo", depth: int):
+        self.ev, self.node, self.env, self.fi, self.depth = ev, node, env, fi, depth
+
+    def __call__(self, *args: Any, **kwargs: Any) -> Any:
+        ev = self.ev
+        if self.depth > ev.max_depth:
+            raise Unsupported("call depth")
+        a = self.node.args  # type: ignore[attr-defined]
+        names = [x.arg for x in a.posonlyargs + a.args]
+        local = dict(self.env)
+        if a.vararg is not None:
+            local[a.vararg.arg] = tuple(args[len(names):])
+            args = args[: len(names)]
+        if len(args) > len(names):
+            raise EvalRaise("TypeError")
+        for n, v in zip(names, args):
+            local[n] = v
+        kwonly = [x.arg for x in a.kwonlyargs]
+        extra = {}
+        for k, v in kwargs.items():
+            if k in names or k in kwonly:
+                local[k] = v
+            else:
+                extra[k] = v
+        if a.kwarg is not None:
+            local[a.kwarg.arg] = extra
+        elif extra:
+            raise EvalRaise("TypeError")
+        bound = set(names[: len(args)]) | (set(kwargs) - set(extra))
+        for n, d in zip(names[len(names) - len(a.defaults):], a.defaults):
+            if n not in bound:
+                local[n] = ev.eval(d, self.env, self.fi, self.depth)
+                bound.add(n)
+        for x, d in zip(a.kwonlyargs, a.kw_defaults):
+            if x.arg not in bound and d is not None:
+                local[x.arg] = ev.eval(d, self.env, self.fi, self.depth)
+                bound.add(x.arg)
+        if any(n not in bound for n in names + kwonly):
+            raise EvalRaise("TypeError")
+        if isinstance(self.node, ast.Lambda):
+            return ev.eval(self.node.body, local, self.fi, self.depth + 1)
+        try:
+            ev.block(self.node.body, local, self.fi, self.depth + 1)  # type: ignore[attr-defined]
+        except _Return as r:
+            return r.value
+        return None
+
+
 class _Continue(Exception):
     pass
 
@@ -99,6 +162,9 @@ class Evaluator:
         self.stubs = stubs or {}
         self.max_depth = max_depth
         self.steps = 0
+        self.consts: Dict[str, Any] = {}          # dotted name -> value (e.g. "batching.not_mapped": None)
+        self.call_hook: Optional[Callable[..., Any]] = None   # (call name, args, kwargs) -> value | NotImplemented
+        self._cur: Optional[Tuple[Any, int]] = None
 
     # ------------------------------------------------------------------
     def call(self, fi: FuncInfo, args: List[Any], kwargs: Optional[Dict[str, Any]] = None, depth: int = 0) -> Any:
@@ -133,6 +199,7 @@ class Evaluator:
 
     def block(self, stmts: List[ast.stmt], env: Dict[str, Any], fi: FuncInfo, depth: int) -> None:
         for st in stmts:
+            self._cur = (fi, depth)
             self.steps += 1
             if self.steps > 5_000_000:
                 raise Unsupported("step budget")
@@ -180,6 +247,14 @@ class Evaluator:
                 raise EvalRaise(nm)
             elif isinstance(st, ast.Pass):
                 continue
+            elif isinstance(st, ast.FunctionDef) and not st.decorator_list:
+                env[st.name] = Closure(self, st, env, fi, depth)
+            elif isinstance(st, ast.Delete):
+                for tg in st.targets:
+                    if isinstance(tg, ast.Name):
+                        env.pop(tg.id, None)
+                    else:
+                        raise Unsupported("delete target")
             elif isinstance(st, ast.For) and not st.orelse:
                 it = self.eval(st.iter, env, fi, depth)
                 if not isinstance(it, (list, tuple, frozenset, range, dict)):
@@ -212,6 +287,12 @@ class Evaluator:
                 raise Unsupported("unpack mismatch")
             for e, x in zip(t.elts, v):
                 self.assign(e, x, env)
+        elif isinstance(t, ast.Subscript) and isinstance(t.value, ast.Name) and t.value.id in env and isinstance(env[t.value.id], (dict, list)) and self._cur is not None:
+            k = self.eval(t.slice, env, self._cur[0], self._cur[1])
+            try:
+                env[t.value.id][k] = v
+            except Exception:
+                raise EvalRaise("IndexError")
         else:
             raise Unsupported("assignment target")
 
@@ -235,8 +316,12 @@ class Evaluator:
             if e.id in ("True", "False", "None"):
                 return {"True": True, "False": False, "None": None}[e.id]
             raise Unsupported(f"free name {e.id}")
+        if isinstance(e, ast.Lambda):
+            return Closure(self, e, env, fi, depth)
         if isinstance(e, ast.Attribute):
             d = dotted(e)
+            if d is not None and d in self.consts:
+                return self.consts[d]
             if d is not None:
                 parts = d.split(".")
                 if len(parts) >= 2 and parts[-2] == "DataType" and parts[-1] in self.dtypes:
@@ -362,8 +447,6 @@ class Evaluator:
         raise Unsupported(f"expression {type(e).__name__}")
 
     def eval_call(self, e: ast.Call, env: Dict[str, Any], fi: FuncInfo, depth: int) -> Any:
-        if any(isinstance(a, ast.Starred) for a in e.args) or any(k.arg is None for k in e.keywords):
-            raise Unsupported("star args")
         cn = call_name(e) or ""
         if cn == "isinstance" and len(e.args) == 2:
             o = self.eval(e.args[0], env, fi, depth)
@@ -382,11 +465,42 @@ class Evaluator:
                 elif not tn:
                     raise Unsupported("isinstance type expression")
             return False
-        args = [self.eval(a, env, fi, depth) for a in e.args]
-        kwargs = {k.arg: self.eval(k.value, env, fi, depth) for k in e.keywords}
+        args = []
+        for a in e.args:
+            if isinstance(a, ast.Starred):
+                sv = self.eval(a.value, env, fi, depth)
+                if not isinstance(sv, (list, tuple)):
+                    raise Unsupported("star argument is not a sequence")
+                args.extend(sv)
+            else:
+                args.append(self.eval(a, env, fi, depth))
+        kwargs = {}
+        for k in e.keywords:
+            if k.arg is None:
+                kv = self.eval(k.value, env, fi, depth)
+                if not isinstance(kv, dict):
+                    raise Unsupported("** argument is not a mapping")
+                kwargs.update(kv)
+            else:
+                kwargs[k.arg] = self.eval(k.value, env, fi, depth)
         last = cn.split(".")[-1]
         if cn in self.stubs:
             return self.stubs[cn](*args, **kwargs)
+        if self.call_hook is not None:
+            hv = self.call_hook(cn, args, kwargs)
+            if hv is not NotImplemented:
+                return hv
+        if isinstance(e.func, ast.Name) and e.func.id in env and callable(env[e.func.id]):
+            return env[e.func.id](*args, **kwargs)
+        if isinstance(e.func, ast.Call):
+            fv = self.eval(e.func, env, fi, depth)
+            if callable(fv):
+                return fv(*args, **kwargs)
+            raise EvalRaise("TypeError")
+        if cn == "dict" and len(args) <= 1:
+            base = dict(args[0]) if args else {}
+            base.update(kwargs)
+            return base
         if cn in ("bool",) and len(args) == 1:
             return self.truth(args[0])
         if cn == "repr" and len(args) == 1:
@@ -412,6 +526,8 @@ class Evaluator:
             raise Unsupported("getattr on a non-abstract object")
         if cn == "int" and len(args) == 1:
             return args[0].code if isinstance(args[0], DT) else int(args[0])
+        if cn == "set" and not args:
+            return _MutSet()
         if cn in ("max", "min", "abs", "len", "tuple", "list", "sorted", "range", "sum", "any", "all", "set", "zip", "enumerate", "reversed"):
             try:
                 r = {"max": max, "min": min, "abs": abs, "len": len, "tuple": tuple, "list": list, "sorted": sorted, "range": range, "sum": sum,
@@ -432,7 +548,7 @@ class Evaluator:
                 recv = self.eval(e.func.value, env, fi, depth)
             except Unsupported:
                 recv = Unsupported
-            if recv is not Unsupported:
+            if recv is not Unsupported and not isinstance(recv, Opaque):
                 m = e.func.attr
                 if isinstance(recv, Obj):
                     f_ = recv.attrs.get(m)
@@ -456,6 +572,11 @@ class Evaluator:
                         return getattr(recv, m)(*args)
                     except Exception:
                         raise EvalRaise("ValueError")
+                if isinstance(recv, _MutSet) and m in ("add", "discard", "update", "remove"):
+                    try:
+                        return getattr(recv, m)(*args)
+                    except Exception:
+                        raise EvalRaise("KeyError")
                 if isinstance(recv, dict) and m == "get":
                     return recv.get(args[0], args[1] if len(args) > 1 else None)
                 if isinstance(recv, str) and m in ("startswith", "endswith", "isdigit", "isalpha", "isalnum", "lower", "upper", "strip", "lstrip", "rstrip",
